@@ -250,15 +250,13 @@ class StmtChecker(AstVisitor[BBStatement]):
         elif num_lhs < num_rhs and not starred:
             raise GuppyTypeError(err)
 
-        # Recursively check any nested patterns on the left or right
+        # Recursively check any nested patterns on the left. Targets are bound from left
+        # to right as in Python, so the starred target comes next and the patterns on
+        # the right come last (this matters if a name occurs more than once)
         le, rs = len(left), len(rhs_elts) - len(right)  # left_end, right_start
         unpack.pattern.left = [
             self._check_assign(pat, elt, ty)
             for pat, elt, ty in zip(left, rhs_elts[:le], rhs_tys[:le], strict=True)
-        ]
-        unpack.pattern.right = [
-            self._check_assign(pat, elt, ty)
-            for pat, elt, ty in zip(right, rhs_elts[rs:], rhs_tys[rs:], strict=True)
         ]
 
         # Starred assignments are collected into an array
@@ -283,6 +281,11 @@ class StmtChecker(AstVisitor[BBStatement]):
             # of length zero), so fall back to the RHS expression itself
             starred_rhs = rhs_elts[0] if rhs_elts else rhs
             unpack.pattern.starred = self._check_assign(starred, starred_rhs, array_ty)
+
+        unpack.pattern.right = [
+            self._check_assign(pat, elt, ty)
+            for pat, elt, ty in zip(right, rhs_elts[rs:], rhs_tys[rs:], strict=True)
+        ]
 
         return with_type(rhs_ty, with_loc(lhs, unpack))
 
